@@ -13,7 +13,9 @@ import (
 	"strings"
 	"sync"
 
+	"rivaas.dev/app"
 	"rivaas.dev/router"
+	"rivaas.dev/router/version"
 	"verif/harness/hx"
 )
 
@@ -433,7 +435,11 @@ func emitObs(id string, k caseT, res string, ok bool, st *hx.Stats) string {
 	return l.String() + hx.Comment(k)
 }
 
-func newRouter(c cfgT) *router.Router {
+func newRouter(c cfgT, extra ...router.Option) *router.Router {
+	return router.MustNew(routerOptions(c, extra...)...)
+}
+
+func routerOptions(c cfgT, extra ...router.Option) []router.Option {
 	var opts []router.TrustedProxyOption
 	if c.Decoy {
 		opts = append(opts, router.WithProxies("0.0.0.0/0", "::/0"))
@@ -459,7 +465,7 @@ func newRouter(c cfgT) *router.Router {
 	if c.Diag {
 		ro = append(ro, router.WithDiagnostics(router.DiagnosticHandlerFunc(func(router.DiagnosticEvent) {})))
 	}
-	return router.MustNew(ro...)
+	return append(ro, extra...)
 }
 
 func applyReq(req *http.Request, q reqT) {
@@ -482,16 +488,31 @@ func applyReq(req *http.Request, q reqT) {
 }
 
 // serveOn serves q on router r at the given call site and returns what ClientIP() answered there.
-func serveOn(r *router.Router, q reqT, site string, out *string, ok *bool) {
+func serveOn(r http.Handler, q reqT, site string, out *string, ok *bool) {
 	method, path := http.MethodGet, "/ip"
 	switch site {
 	case "noroute":
 		method, path = http.MethodDelete, "/nothing/here" // no DELETE tree at all
 	case "nf":
 		path = "/nothing/here"
+	case "param", "cparam":
+		path = "/p/7/ip"
+	case "group":
+		path = "/g/ip"
+	case "mount":
+		path = "/m/ip"
+	case "cstatic":
+		path = "/s5"
+	case "version":
+		path = "/vip"
+	case "app":
+		path = "/app/ip"
 	}
 	req := httptest.NewRequest(method, path, nil)
 	applyReq(req, q)
+	if site == "version" {
+		req.Header.Set("X-Api-Version", "v2")
+	}
 	func() {
 		defer func() {
 			if p := recover(); p != nil {
@@ -503,8 +524,14 @@ func serveOn(r *router.Router, q reqT, site string, out *string, ok *bool) {
 }
 
 // siteRouter builds a router whose handler at `site` records ClientIP().
-func siteRouter(c cfgT, site string, out *string, ok *bool) *router.Router {
-	r := newRouter(c)
+func siteRouter(c cfgT, site string, out *string, ok *bool) http.Handler {
+	var extra []router.Option
+	switch site {
+	case "cstatic", "cparam":
+		extra = append(extra, router.WithRouteCompilation(true))
+	case "version":
+		extra = append(extra, router.WithVersioning(version.WithHeaderDetection("X-Api-Version"), version.WithDefault("v1")))
+	}
 	rec := func(ctx *router.Context) {
 		defer func() {
 			if p := recover(); p != nil {
@@ -513,10 +540,44 @@ func siteRouter(c cfgT, site string, out *string, ok *bool) *router.Router {
 		}()
 		*out = ctx.ClientIP()
 	}
-	if site == "mw" {
+	if site == "app" { // the configuration reaches the router through app.WithRouter
+		a, err := app.New(app.WithServiceName("c18"), app.WithServiceVersion("1.0.0"), app.WithRouter(routerOptions(c)...))
+		if err != nil {
+			panic(err)
+		}
+		a.GET("/app/ip", func(ctx *app.Context) { rec(ctx.Context) })
+		return a.Router()
+	}
+	r := newRouter(c, extra...)
+	switch site {
+	case "mw":
 		r.Use(func(ctx *router.Context) { rec(ctx); ctx.Next() })
 		r.GET("/ip", func(ctx *router.Context) {})
-	} else {
+	case "param":
+		r.GET("/p/:x/ip", rec)
+	case "cparam": // enough routes for the compiled engine's index
+		for i := 0; i < 12; i++ {
+			r.GET(fmt.Sprintf("/q%d/:x/ip", i), func(ctx *router.Context) {})
+		}
+		r.GET("/p/:x/ip", rec)
+	case "cstatic":
+		for i := 0; i < 12; i++ {
+			if i == 5 {
+				r.GET("/s5", rec)
+			} else {
+				r.GET(fmt.Sprintf("/s%d", i), func(ctx *router.Context) {})
+			}
+		}
+	case "group":
+		r.Group("/g", func(ctx *router.Context) { ctx.Next() }).GET("/ip", rec)
+	case "mount": // the serving router's configuration applies; the sub-router has none of its own
+		sub := router.MustNew()
+		sub.GET("/ip", rec)
+		r.Mount("/m", sub)
+	case "version":
+		r.Version("v1").GET("/vip", func(ctx *router.Context) {})
+		r.Version("v2").GET("/vip", rec)
+	default:
 		r.GET("/ip", rec)
 	}
 	r.NoRoute(rec)
@@ -713,7 +774,7 @@ func main() {
 					q.Hdr["X-Forwarded-For"] = "6.6.6.6"
 				}
 			}
-			site := hx.Pick(r, []string{"", "mw", "nf", "noroute", "noroute"})
+			site := hx.Pick(r, []string{"", "mw", "nf", "noroute", "noroute", "param", "cparam", "cstatic", "group", "mount", "version", "app"})
 			res, ok := observeAfterOther(other, c, qa, q, site)
 			fmt.Fprintln(w, emitObs(fmt.Sprintf("c18-%d-o%d", a.Seed, i), caseT{C: c, Q: q, Other: &other, Site: site, Before: []reqT{qa}}, res, ok, st))
 		}
